@@ -125,7 +125,7 @@ theorem InvA_setWk {P : Params} {s t : St} {i : Nat} {e : Entry} {w0 : WCtx} (h 
   · intro w hw'
     exact WOk_congr (e := e) rfl rfl rfl (hw w hw')
 
-theorem InvA_wTop {P : Params} {s s' : St} {i : Nat} (h : InvA P s) (hs : wTop s i = some s') : InvA P s' := by
+theorem InvA_wTop {P : Params} {s s' : St} {i o0 : Nat} (h : InvA P s) (hs : wTop P s i o0 = some s') : InvA P s' := by
   unfold wTop at hs
   split at hs; · cases hs
   rename_i e hi
@@ -135,19 +135,24 @@ theorem InvA_wTop {P : Params} {s s' : St} {i : Nat} (h : InvA P s) (hs : wTop s
   split at hs
   · rename_i hg
     have hz := hW.topZero hg.1
-    split at hs <;> cases hs
-    · refine InvA_setWk h hi hw _ ?_ rfl rfl
+    split at hs
+    · cases hs
+      refine InvA_setWk h hi hw _ ?_ rfl rfl
       intro w1 h1; cases h1
       exact ⟨hW.pos, hW.lin, hW.pin, hW.pout, hW.encOut, hW.topZero, by simp [sleep], by simp [sleep], hW.res, by simp [sleep, needsRun, hg.1]⟩
     · rename_i hst
+      cases hs
       refine InvA_setWk h hi hw _ ?_ rfl rfl
       intro w1 h1; cases h1
       exact ⟨hW.pos, hW.lin, hW.pin, hW.pout, hW.encOut, hW.topZero, hW.fin, hW.runOpen, hW.res, by simp [sleep, needsRun, hg.1, hst]⟩
-    · refine InvA_setWk h hi hw none ?_ rfl rfl
+    · cases hs
+      refine InvA_setWk h hi hw none ?_ rfl rfl
       intro w1 h1; cases h1
-    · refine InvA_setWk h hi hw _ ?_ rfl rfl
+    · split at hs <;> cases hs
+      rename_i ho
+      refine InvA_setWk h hi hw _ ?_ rfl rfl
       intro w1 h1; cases h1
-      refine ⟨by simp [awake], by simp [awake], by simp [awake, hz.1], by simp [awake, hz.2], by simp [awake], by simp [awake], ?_, ?_, ?_, by simp [awake]⟩
+      refine ⟨by simp [awake], by simp [awake], by simp [awake, hz.1], by simp [awake, hz.2], (by intro _; simpa [awake] using ho), by simp [awake], ?_, ?_, ?_, by simp [awake]⟩
       · simpa [awake] using hW.fin
       · simpa [awake] using hW.runOpen
       · simp [awake]
